@@ -7,14 +7,27 @@ import (
 	"unicode/utf16"
 )
 
+// MultiLocalisedUnicode holds the records of a multiLocalizedUnicodeType tag.
+//
+// Each entry references the raw UTF-16BE bytes of its string within the tag
+// data; strings are decoded only when requested, so that parsing costs no more
+// than the size of the tag however many records share or overlap a string.
 type MultiLocalisedUnicode struct {
-	entriesByLanguageCountry map[[2]byte]map[[2]byte]string
+	entriesByLanguageCountry map[[2]byte]map[[2]byte][]byte
+}
+
+func decodeUTF16BE(b []byte) string {
+	codeUnits := make([]uint16, len(b)/2)
+	for i := range codeUnits {
+		codeUnits[i] = uint16(b[i*2])<<8 | uint16(b[i*2+1])
+	}
+	return string(utf16.Decode(codeUnits))
 }
 
 func (mluc *MultiLocalisedUnicode) getAnyString() string {
 	for _, country := range mluc.entriesByLanguageCountry {
 		for _, s := range country {
-			return s
+			return decodeUTF16BE(s)
 		}
 	}
 	return ""
@@ -26,20 +39,20 @@ func (mluc *MultiLocalisedUnicode) getString(language [2]byte, country [2]byte) 
 		return ""
 	}
 
-	return countries[country]
+	return decodeUTF16BE(countries[country])
 }
 
 func (mluc *MultiLocalisedUnicode) getStringForLanguage(language [2]byte) string {
 	for _, s := range mluc.entriesByLanguageCountry[language] {
-		return s
+		return decodeUTF16BE(s)
 	}
 	return ""
 }
 
-func (mluc *MultiLocalisedUnicode) setString(language [2]byte, country [2]byte, text string) {
+func (mluc *MultiLocalisedUnicode) setString(language [2]byte, country [2]byte, text []byte) {
 	countries, ok := mluc.entriesByLanguageCountry[language]
 	if !ok {
-		countries = map[[2]byte]string{
+		countries = map[[2]byte][]byte{
 			country: text,
 		}
 		mluc.entriesByLanguageCountry[language] = countries
@@ -51,7 +64,7 @@ func (mluc *MultiLocalisedUnicode) setString(language [2]byte, country [2]byte, 
 
 func parseMultiLocalisedUnicode(data []byte) (MultiLocalisedUnicode, error) {
 	result := MultiLocalisedUnicode{
-		entriesByLanguageCountry: make(map[[2]byte]map[[2]byte]string),
+		entriesByLanguageCountry: make(map[[2]byte]map[[2]byte][]byte),
 	}
 
 	reader := bytes.NewReader(data)
@@ -115,11 +128,7 @@ func parseMultiLocalisedUnicode(data []byte) (MultiLocalisedUnicode, error) {
 		}
 
 		recordStringBytes := data[stringOffset : stringOffset+stringLength]
-		recordStringUTF16 := make([]uint16, len(recordStringBytes)/2)
-		for j := 0; j < len(recordStringUTF16); j++ {
-			recordStringUTF16[j] = uint16(recordStringBytes[j*2])<<8 | uint16(recordStringBytes[j*2+1])
-		}
-		result.setString(language, country, string(utf16.Decode(recordStringUTF16)))
+		result.setString(language, country, recordStringBytes)
 
 		// Skip to next record
 		for j := uint32(12); j < recordSize; j++ {
